@@ -1,7 +1,7 @@
 //@ kani matchers_enum
 //@ append src/find/matchers/mod.rs
 //@ module verif_enum_matchers
-//@ harness e_numeric_operand kind=enum props=C14,C11 bound=<<every operand of 0..=4 symbols over {+, -, 0, 1, 9, x}, plus 18446744073709551615 and 18446744073709551616 with each sign>> label=<<a numeric operand is an optional + or - followed by decimal digits only: +N reads as 'greater than N', -N as 'less than N' (also for N = 0), N as 'equal to N'; anything else, and values beyond u64, are rejected>>
+//@ harness e_numeric_operand kind=enum props=C14,C11,C15 bound=<<every operand of 0..=4 symbols over {+, -, 0, 1, 9, x}, plus 18446744073709551615 and 18446744073709551616 with each sign>> label=<<a numeric operand is an optional + or - followed by decimal digits only: +N reads as 'greater than N', -N as 'less than N' (also for N = 0), N as 'equal to N'; anything else, and values beyond u64, are rejected>>
 //@ harness e_size kind=enum props=C14 bound=<<file sizes 0, 1, 2, 511, 512, 513, 1024, 1025, 2^20, 2^20+1 (sparse files) x operands N, +N, -N for N in {0, 1, 2, 3, 2^34, 2^44, 2^54, 2^55, 2^63, 2^64-1} x units c, w, b, none, k, M, G>> label=<<-size compares N with the size in bytes divided by the unit, rounded up to the next whole unit: N equal, +N greater, -N less (exact arithmetic, also where N x unit exceeds 2^64)>>
 //@ harness e_size_kinds kind=enum props=C14 bound=<<a directory, a FIFO and an empty regular file x -size N, +N, -N for N in 0, 1, 8 x units c, b, k>> label=<<-size reads the size of the status record uniformly, whatever the file type: exactly one of N, +N, -N is true and it is the one the rounded-up st_size dictates>>
 //@ harness e_ids kind=enum props=C14,C13 bound=<<files owned by uid/gid 0 and (when running as root) 1234/4321 x -uid/-gid N, +N, -N for N in {0, 1, 1233, 1234, 1235, 4321, 2^32-1, 2^32, 2^32+1234, 2^32+4321, 2^63, 2^64-1}>> label=<<-uid/-gid compare the numeric id with N as integers: N equal, +N greater, -N less, for every N up to 2^64-1>>
@@ -14,6 +14,7 @@
 //@ harness e_iregex_case kind=enum props=C17 bound=<<patterns abc, a.c, [a-c]+, [0-^]+, [_-~]+, [^a]b, (letters also upper-cased) x paths abc, ABC, aBc, 123, a-c, xb>> label=<<-iregex ignores letter case: its verdict does not change when the letters of the path or of the pattern change case, and it equals -regex when both are lower-cased and the pattern has no range spanning only one case>>
 //@ harness e_regextype_scope kind=enum props=C17 bound=<<syntaxes emacs, posix-basic, posix-extended, grep x patterns a+, a\+, a{2}, a\{2\}, a|b, a\|b, (a), \(a\) x paths aa, a+, a{2}, a|b, a, b, (a) x -regextype placed before the -regex directly, inside an earlier parenthesis group, inside the same group, after another -regextype, or before an earlier -regex that already used it>> label=<<-regex uses the syntax of the nearest preceding -regextype on the command line, wherever parentheses are>>
 //@ harness e_regex_whole_path kind=enum props=C17 bound=<<literal patterns and paths of 1..=3 symbols over {a, b, /, e-acute, blank, #} in each of the four syntaxes; -regex and -iregex (paths also with A)>> label=<<a pattern without metacharacters matches exactly the path equal to it (ignoring letter case for -iregex): never a prefix, never a substring, multi-byte characters included>>
+//@ harness e_regex_multibyte kind=enum props=C17 bound=<<patterns ., .., e-acute followed by *, [^a], [e-acute], .x, x., e-acute (each over a path of one to three characters drawn from e-acute, E-acute, a, x, the euro sign) in emacs and posix-extended syntax; -regex and -iregex>> label=<<the unit of a pattern is a character of the path as printed, not a byte: . and a bracket expression consume one whole multi-byte character, a repeat applies to the whole character, and -iregex folds the case of letters outside ASCII too>>
 #[cfg(verif_replay)]
 mod verif_enum_matchers {
     use super::*;
@@ -306,4 +307,30 @@ mod verif_enum_matchers {
         if !got { eprintln!("  input -regex '.*' on the path d/caf\\xe9 (not valid UTF-8): false"); }
         assert!(got, "-regex '.*' must accept every path");
     }
+
+    fn regex_multibyte_body() {
+        // (pattern, the same language as a predicate on the characters of the path)
+        let pats: [(&str, fn(&[char]) -> bool); 8] = [
+            (".", |c| c.len() == 1),
+            ("..", |c| c.len() == 2),
+            ("\u{e9}*", |c| c.iter().all(|x| *x == '\u{e9}')),
+            ("[^a]", |c| c.len() == 1 && c[0] != 'a'),
+            ("[\u{e9}]", |c| c.len() == 1 && c[0] == '\u{e9}'),
+            (".x", |c| c.len() == 2 && c[1] == 'x'),
+            ("x.", |c| c.len() == 2 && c[0] == 'x'),
+            ("\u{e9}", |c| c.len() == 1 && c[0] == '\u{e9}'),
+        ];
+        let (pat, lang) = pats[pick(8)];
+        let alpha = ['\u{e9}', '\u{c9}', 'a', 'x', '\u{20ac}'];
+        let n = 1 + pick(3);
+        let path: String = (0..n).map(|_| alpha[pick(5)]).collect();
+        let ty = ["emacs", "posix-extended"][pick(2)];
+        let caseless = pick(2) == 1;
+        let got = eval(&["-regextype", ty, if caseless { "-iregex" } else { "-regex" }, pat, "-a", "-true"], &path);
+        let chars: Vec<char> = if caseless { path.to_lowercase().chars().collect() } else { path.chars().collect() };
+        let want = Some(lang(&chars));
+        if got != want { eprintln!("  input -regextype {ty} {} {pat:?} on path {path:?}: {got:?}, expected {want:?}", if caseless { "-iregex" } else { "-regex" }); }
+        assert!(got == want, "the pattern is not applied to the characters of the path");
+    }
+    #[test] fn e_regex_multibyte() { kani::explore(regex_multibyte_body) }
 }
